@@ -48,7 +48,7 @@ class FnResult(object):
                 "pruned_infeasible": self.pruned, "sha256": self.sha256, "lines": self.lines, "secs": round(self.secs, 3),
                 "obligations": [{"name": o.name, "kind": o.kind, "clause": o.clause, "props": list(o.props),
                                  "status": o.status, "backend": o.backend, "secs": round(o.secs, 4),
-                                 "reason": o.reason, "sig": o.sig, "cex": o.cex} for o in self.obligations],
+                                 "reason": o.reason, "sig": o.sig, "cex": o.cex, "extra": {k: v for k, v in (o.extra or {}).items() if isinstance(v, (str, int, float, bool))}} for o in self.obligations],
                 "covers": self.covers, "trusted_used": self.trusted_used}
 
 
@@ -323,13 +323,14 @@ def verify_function(key, table, fields, monitor=None, timeout_ms=None, cex_fn=No
             res.obligations.append(ObResult(ob, solve.Verdict("unknown", "-", 0.0, None, "discharge budget of the function exhausted")))
             continue
         v = solve.check_valid(ob.hyps, ob.goal, timeout_ms)
-        if v.status != "discharged" and z3.is_and(ob.goal) and ob.kind in ("inv-entry", "inv-preserve", "post", "pre-of", "assert") \
+        if v.status != "discharged" and z3.is_and(ob.goal) and ob.kind in ("inv-entry", "inv-preserve", "post", "pre-of", "assert", "lock-release") \
                 and ob.goal.num_args() > 1:
             # report the conjuncts separately: smaller queries, and the failing part is named
             parts = ob.goal.children()
             allok = True
             for n_, part in enumerate(parts):
-                sub = Obligation("%s#%d" % (ob.name, n_), ob.hyps, part, ob.sig, ob.kind, ob.clause, ob.props, ob.extra)
+                sub = Obligation("%s#%d" % (ob.name, n_), ob.hyps, part, ob.sig, ob.kind, ob.clause, ob.props,
+                                 dict(ob.extra or {}, conjunct=str(part)[:160].replace("\n", " ")))
                 vs = solve.check_valid(sub.hyps, sub.goal, timeout_ms)
                 rs = ObResult(sub, vs)
                 if vs.status == "refuted" and cex_fn is not None:
